@@ -6,6 +6,7 @@ import SslModel.Model.Seq
 import SslModel.Model.TyIO
 import SslModel.Model.SpecIO
 import SslModel.Model.TyText
+import SslModel.Model.ValText
 /-! Model side of the correspondence: one request per line on stdin, one canonical answer per
     line on stdout.  Import-free apart from the model, so it links as a native executable. -/
 open Ssl
@@ -167,7 +168,31 @@ def handleRepl (rest : String) : String :=
     | _, _ => "(bad-program)"
   | _ => "(bad-request)"
 
+/-- `valdebug (S*)`: run a literal program in Spec and print its value the way the REPL would;
+    `valparse "text"`: the value-literal reader -/
+def handleVal (line : String) : String :=
+  if line.startsWith "valdebug " then
+    match Sexp.parseMany ((line.drop 9).trimAscii.toString) with
+    | [.list stmts] =>
+      match stmts.mapM Spec.exprOf with
+      | some ss =>
+        match Spec.evalSeq 2000 [[]] ss {} with
+        | (.ok (v, _), _) => match ValText.debugVal v with
+          | some cs => Sexp.quote (String.ofList cs)
+          | none => "(not-modelled)"
+        | (.error s, _) => Spec.showSig s
+      | none => "(bad-program)"
+    | _ => "(bad-request)"
+  else
+    match Sexp.parseMany ((line.drop 9).trimAscii.toString) with
+    | [.str text] =>
+      match ValText.parseVal text with
+      | some v => "(parsed " ++ Spec.showVal {} 0 v ++ ")"
+      | none => "(unparsable)"
+    | _ => "(bad-request)"
+
 def handle (line : String) : String :=
+  if line.startsWith "valdebug " || line.startsWith "valparse " then handleVal line else
   if line.startsWith "repl " then handleRepl ((line.drop 5).trimAscii.toString) else
   if line.startsWith "prog " then handleProg ((line.drop 5).trimAscii.toString) else
   if line.startsWith "ty " then handleTy ((line.drop 3).trimAscii.toString) else
